@@ -179,6 +179,20 @@ Definition fits (L : link) (m : mol) (p : placement) : bool :=
 
 Definition matches (L : link) (m : mol) : list placement := filter (fits L m) (placements L m).
 
+(* the same placements, enumerated with pruning: position by position, only atoms that satisfy the node's own template
+   (used to run the model on shipped force fields; proved to give the same set in C05/Fast.v) *)
+Fixpoint inj_cands5 (cands : list (list Z)) (used : list Z) : list (list Z) :=
+  match cands with
+  | [] => [[]]
+  | c :: r => flat_map (fun x => if existsb (Z.eqb x) used then [] else map (cons x) (inj_cands5 r (x :: used))) c
+  end.
+Definition cands_of (m : mol) (n : lnode) : list Z :=
+  map m_key (filter (fun mn => atoms_match (m_mods mn) (m_attrs mn) (l_tmpl n)) (nodes m)).
+Definition placements_fast (L : link) (m : mol) : list placement :=
+  map (combine (map l_key (lnodes L))) (inj_cands5 (map (cands_of m) (lnodes L)) []).
+Definition matches_fast (L : link) (m : mol) : list placement :=
+  if attributes_match (meta m) (molmeta L) then filter (fits L m) (placements_fast L m) else [].
+
 (* ---------- applying a link ---------- *)
 Fixpoint iget (d : list (Z * list inter)) (t : Z) : list inter :=
   match d with [] => [] | (u, l) :: r => if Z.eqb u t then l else iget r t end.
@@ -248,6 +262,14 @@ Definition remove_nodes (m : mol) (ks : list Z) : mol :=
      meta := meta m |}.
 
 (* one link: the placements are those of the molecule as it is when the link starts *)
+Definition apply_link_with (find : link -> mol -> list placement) (L : link) (ms : mol * list Z) : mol * list Z :=
+  let '(m, pending) := ms in
+  let ps := find L m in
+  let m' := fold_left (apply_match L) ps m in
+  let pending' := pending ++ flat_map (removed_by L) ps in
+  (remove_nodes m' pending', pending').
+Definition do_links_fast (Ls : list link) (m : mol) : mol := fst (fold_left (fun ms L => apply_link_with matches_fast L ms) Ls (m, [])).
+
 Definition apply_link (L : link) (ms : mol * list Z) : mol * list Z :=
   let '(m, pending) := ms in
   let ps := matches L m in
